@@ -528,22 +528,24 @@ def πrev : { π : Nat → ProcState → ProcState // Relayout π } := ⟨fun _ 
 example : (match processScr πid.1 {} 0 exLedger, processScr πrev.1 {} 0 exLedger with
     | .ok st, .ok st' => decide (st.bal ≠ st'.bal ∧ st.bal.length = 4) | _, _ => false) = true := by decide +kernel
 
-/-- … are related … -/
+/- … are related … (`processScr` is sealed here only to keep the elaborator from evaluating the run when it
+normalises the statement) -/
+attribute [local irreducible] processScr in
 example : ORel PErrEq ProcEq (processScr πid.1 {} 0 exLedger) (processScr πrev.1 {} 0 exLedger) :=
-  C13_process_relayout πid.2 πrev.2 exLedger
+  C13_process_relayout (π₁ := πid.1) (π₂ := πrev.1) πid.2 πrev.2 exLedger
 
 /-- … and print the same. -/
 example : balanceCmd (fun a b => decide (a ≤ b)) (fun a b => decide (a ≤ b)) id showNat' {} πid.1 exLedger =
     balanceCmd (fun a b => decide (a ≤ b)) (fun a b => decide (a ≤ b)) id showNat' {} πrev.1 exLedger :=
-  C13_balance_cmd keyOrder_string keyOrder_string id showNat' {} πid πrev exLedger
+  balanceCmd_det (π₁ := πid.1) (π₂ := πrev.1) keyOrder_string keyOrder_string id showNat' {} πid.2 πrev.2 exLedger
 
 example : registerCmd (fun a b => decide (a ≤ b)) id showNat' (some "Assets:Bank") πid.1 exLedger =
     registerCmd (fun a b => decide (a ≤ b)) id showNat' (some "Assets:Bank") πrev.1 exLedger :=
-  C13_register_cmd keyOrder_string id showNat' _ πid πrev exLedger
+  registerCmd_det (π₁ := πid.1) (π₂ := πrev.1) keyOrder_string id showNat' _ πid.2 πrev.2 exLedger
 
 example : accountsCmd (fun a b => decide (a ≤ b)) (fun a b => decide (a ≤ b)) showNat' πid.1 exLedger =
     accountsCmd (fun a b => decide (a ≤ b)) (fun a b => decide (a ≤ b)) showNat' πrev.1 exLedger :=
-  C13_accounts_cmd keyOrder_string keyOrder_string showNat' πid πrev exLedger
+  accountsCmd_det (π₁ := πid.1) (π₂ := πrev.1) keyOrder_string keyOrder_string showNat' πid.2 πrev.2 exLedger
 
 /-- an unbalanced three-commodity transaction is rejected in both runs with related residuals (same text). -/
 def exBad : List Entry :=
@@ -552,8 +554,9 @@ def exBad : List Entry :=
 example : (match processScr πrev.1 {} 0 exBad with
     | .err (0, .unbalanced r) => decide (r.length = 3) | _ => false) = true := by decide +kernel
 
+attribute [local irreducible] processScr in
 example : ORel PErrEq ProcEq (processScr πid.1 {} 0 exBad) (processScr πrev.1 {} 0 exBad) :=
-  C13_process_relayout πid.2 πrev.2 exBad
+  C13_process_relayout (π₁ := πid.1) (π₂ := πrev.1) πid.2 πrev.2 exBad
 
 /-- `≈ₘ` and `≈ᵦ` relate genuinely different lists. -/
 example : ([(2, 10), (1, -3), (3, 5)] : Amount Nat) ≈ₘ [(3, 5), (2, 10), (1, -3)] :=
